@@ -152,3 +152,18 @@ Proof.
   split; [vm_cast_no_check (@eq_refl (res (store ZOps)) (Ok (c15_pre ++ c15_r)%list))|].
   split; [vm_cast_no_check (@eq_refl (res (store ZOps)) (Ok c15_r))|]. repeat split.
 Qed.
+
+From Hexital Require Import Proofs.DataSlot Proofs.DataInst Proofs.DataThms Proofs.DataTrim Proofs.DataTrimInst Proofs.DataTrimThms.
+(* clause 2 for a whole calculate() of the indicators that keep their running state in a managed
+   helper series (VWAP: one retained candle suffices - the cumulative sums live on the previous
+   candle; StandardDeviation and RSI: `period` candles): calculate() on the retained list S ++ new
+   gives exactly what it gives on the untrimmed list, readings and helper entries alike; again
+   nothing is assumed about how the retained entries were obtained *)
+Theorem C15_calculate_unchanged_by_trim_data_series :
+  forall (O : NumOps) (I : ind O) (key : string), data_node O I key -> data_kind O I key ->
+  forall (pre S new : store O),
+  Forall (has_key O I) pre -> Forall (has_key O I) S -> (2 <= List.length S)%nat -> (lookback_data O I <= zlen S)%Z ->
+  Forall (fresh_data O I) new ->
+  calculate O I ((pre ++ S) ++ new)%list = (r <- calculate O I (S ++ new)%list ;; Ok (pre ++ r)%list).
+Proof. exact data_calculate_after_trim. Qed.
+Print Assumptions C15_calculate_unchanged_by_trim_data_series.
